@@ -202,12 +202,20 @@ CLAIMS = {
          "Trusted: Coq kernel + vm_compute; harness (deep copies, public accessors); Python aliasing semantics itself is not modelled.",
          "DESIGN.md section 4, C15"),
 }
+TIE = {"C02": ["step6"], "C04": ["delta", "initscore"], "C05": ["step6"], "C06": ["graph", "step6"], "C07": ["graph", "step6"],
+       "C08": ["delta", "moves", "step6"], "C09": ["delta", "initscore"], "C11": ["where"], "C13": ["copeland", "step6"],
+       "C19": ["scheme"], "C20": ["markov"]}
 NOT_YET = "check not built yet in this phase (planned: DESIGN.md section 4); no claim is made"
 
 checks, na = [], []
 for p in props:
     if p in CLAIMS:
         tech, text, note, ref = CLAIMS[p]
+        if p in TIE:
+            tech += (" + translation tie: tools/py2coq.py regenerates the kernel(s) " + ", ".join(TIE[p]) +
+                     " from the current source at every run and coq/gen_equiv/Equiv_*.v re-proves them equal to the model's definitions")
+            note += (" The translator tools/py2coq.py (python ast -> Gallina, fail-closed on any construct it does not know) is trusted for "
+                     "the kernels it regenerates; everything else is tied by the correspondence check.")
         checks.append({
             "property_id": p,
             "quick_cmd": f"./check {p} --tier quick",
